@@ -1086,6 +1086,9 @@ class ManifestRecursiveLoader:
                     fpath = os.path.join(relpath, mname)
                     if fpath in self.loaded_manifests:
                         continue
+                    # an IGNOREd file is not part of the tree
+                    if mname in dirdict:
+                        continue
 
                     # we've just found ourselves a new Manifest,
                     # let's try to load it
